@@ -88,6 +88,8 @@ var funcSpecs = []funcSpec{
 		fuel: map[int]string{1: "(Go.len rr).toNat + 1"}, alias: map[string]string{"sr.r": "rr"},
 		stopAt: "rr == input", stopRet: []string{"h", "rr", "none"}},
 	{rel: "", name: "multiUnwrap", abstract: []string{"errors.Is"}},
+	{rel: "", name: "Decrypt", abstract: []string{"errors.Is", "age.headerMAC", "age.streamKey", "stream.NewReader", "format.DecodeString"},
+		opaque: map[string]string{"age.Identity": "ι", "stream.Reader": "(List UInt8)"}, allowWrap: true, errCtors: []string{"format.errorf"}},
 	{rel: "", name: "(*ScryptIdentity).unwrap", abstract: []string{"format.DecodeString", "scrypt.Key", "age.aeadDecrypt"}},
 	{rel: "", name: "(*ScryptIdentity).Unwrap", abstract: []string{"errors.Is"}},
 	{rel: "", name: "ParseIdentities", abstract: []string{"age.ParseX25519Identity"}, opaque: map[string]string{"Identity": "κ", "X25519Identity": "κ"}, errInts: true},
@@ -514,7 +516,42 @@ func (c *fctx) partial(e ast.Expr) bool {
 }
 
 // exprAs translates e where a value of type want is expected (this only matters for `nil`).
+// errorOfStruct: a value of a module struct type handed out as an `error`: identified by its type, carrying
+// the lengths of its slice fields (NoIdentityMatchError: how many causes were collected)
+func (c *fctx) errorOfStruct(e ast.Expr) (string, bool) {
+	nt := namedOf(c.typeOf(e))
+	if nt == nil || nt.Obj().Pkg() == nil || c.t.pr.ByPath[nt.Obj().Pkg().Path()] == nil {
+		return "", false
+	}
+	st, ok := nt.Underlying().(*types.Struct)
+	if !ok {
+		return "", false
+	}
+	if _, ok := c.t.structType(nt); !ok {
+		return "", false
+	}
+	var ints []string
+	for i := 0; i < st.NumFields(); i++ {
+		if _, isSlice := st.Field(i).Type().Underlying().(*types.Slice); isSlice {
+			ints = append(ints, "(Go.len ("+c.expr(e)+")."+fieldName(st.Field(i).Name())+")")
+		}
+	}
+	return fmt.Sprintf("(some (Go.Err.mk %q 0 [%s]))", nt.Obj().Pkg().Name()+"."+nt.Obj().Name(), strings.Join(ints, ", ")), true
+}
+
+func isErrorType(t types.Type) bool {
+	nt, ok := t.(*types.Named)
+	return ok && nt.Obj().Pkg() == nil && nt.Obj().Name() == "error"
+}
+
 func (c *fctx) exprAs(e ast.Expr, want types.Type) string {
+	if want != nil && isErrorType(want) && !c.isNil(e) {
+		if tv, ok := c.info().Types[e]; ok && !isErrorType(tv.Type) {
+			if s, ok := c.errorOfStruct(e); ok {
+				return s
+			}
+		}
+	}
 	if id, ok := ast.Unparen(e).(*ast.Ident); ok {
 		if _, isNil := c.info().Uses[id].(*types.Nil); isNil && want != nil {
 			if _, isSlice := want.Underlying().(*types.Slice); isSlice {
@@ -804,6 +841,8 @@ func (c *fctx) call(x *ast.CallExpr) string {
 		switch {
 		case from == to && from != "other":
 			return s
+		case structConv(c, c.typeOf(a), tv.Type) != "":
+			return fmt.Sprintf(structConv(c, c.typeOf(a), tv.Type), s)
 		case fromL == "(List UInt8)" && toL == "(List UInt8)":
 			return s // string <-> []byte
 		case from == "u8" && to == "u32":
@@ -867,6 +906,9 @@ func (c *fctx) call(x *ast.CallExpr) string {
 				}
 				return "(" + fn + " " + strings.Join(parts, " ") + ")"
 			}
+			if o.Pkg().Path() == "crypto/hmac" && o.Name() == "Equal" {
+				return "(Go.bytes_Equal " + c.expr(x.Args[0]) + " " + c.expr(x.Args[1]) + ")"
+			}
 			if key == "strings.Split" && o.Pkg().Path() == "strings" {
 				if sep, ok := c.fi.Pkg.constString(x.Args[1]); ok && len(sep) == 1 {
 					return fmt.Sprintf("(Go.strings_Split1 %s (%d : UInt8))", c.expr(x.Args[0]), sep[0])
@@ -895,6 +937,31 @@ func (c *fctx) call(x *ast.CallExpr) string {
 					}
 				}
 				return fmt.Sprintf("(some (Go.Err.mk %q %d [%s]))", c.fi.Qual(), k, strings.Join(ints, ", "))
+			}
+			// a method of a value whose type is opaque here (an interface the caller supplies): abstract, named Type_Method
+			if sel, ok := ast.Unparen(x.Fun).(*ast.SelectorExpr); ok {
+				if sn := c.info().Selections[sel]; sn != nil && sn.Kind() == types.MethodVal {
+					if lt, ok := leanTypeOf(sn.Recv()); ok && len([]rune(lt)) == 1 && lt != "α" && lt != "δ" {
+						if nt := namedOf(sn.Recv()); nt != nil {
+							msig := o.Type().(*types.Signature)
+							var ps, rs []string
+							ps = append(ps, lt)
+							for i := 0; i < msig.Params().Len(); i++ {
+								ps = append(ps, c.leanType(x, msig.Params().At(i).Type()))
+							}
+							for i := 0; i < msig.Results().Len(); i++ {
+								rs = append(rs, c.leanType(x, msig.Results().At(i).Type()))
+							}
+							an := nt.Obj().Name() + "_" + o.Name()
+							c.useAbstractName(an, fmt.Sprintf("(%s : %s → Go.M %s)", an, strings.Join(ps, " → "), tupleType(rs)))
+							parts := []string{c.expr(sel.X)}
+							for _, a := range x.Args {
+								parts = append(parts, c.expr(a))
+							}
+							return "(← " + an + " " + strings.Join(parts, " ") + ")"
+						}
+					}
+				}
 			}
 			// cipher.AEAD.Overhead(): abstract
 			if sel, ok := ast.Unparen(x.Fun).(*ast.SelectorExpr); ok {
@@ -1084,7 +1151,7 @@ func (c *fctx) tyBinders(sigText ...string) string {
 	seen := map[string]bool{}
 	var vs []string
 	for _, v := range c.spec.opaque {
-		if !seen[v] && !strings.Contains(v, ".") && (len(sigText) == 0 || strings.Contains(text, v)) {
+		if !seen[v] && len([]rune(v)) == 1 && (len(sigText) == 0 || strings.Contains(text, v)) {
 			seen[v] = true
 			vs = append(vs, v)
 		}
@@ -1094,6 +1161,35 @@ func (c *fctx) tyBinders(sigText ...string) string {
 		return ""
 	}
 	return "{" + strings.Join(vs, " ") + " : Type} "
+}
+
+// structConv: a conversion between two (pointers to) struct types with the same fields: a format string building
+// the target structure from the source value, or ""
+func structConv(c *fctx, from, to types.Type) string {
+	fn, tn := namedOf(from), namedOf(to)
+	if fn == nil || tn == nil || fn == tn {
+		return ""
+	}
+	fs, ok1 := fn.Underlying().(*types.Struct)
+	ts, ok2 := tn.Underlying().(*types.Struct)
+	if !ok1 || !ok2 || fs.NumFields() != ts.NumFields() {
+		return ""
+	}
+	tname, ok := c.t.structType(tn)
+	if !ok {
+		return ""
+	}
+	if _, ok := c.t.structType(fn); !ok {
+		return ""
+	}
+	var parts []string
+	for i := 0; i < fs.NumFields(); i++ {
+		if fs.Field(i).Name() != ts.Field(i).Name() || !types.Identical(fs.Field(i).Type(), ts.Field(i).Type()) {
+			return ""
+		}
+		parts = append(parts, fmt.Sprintf("%s := (%%[1]s).%s", fieldName(ts.Field(i).Name()), fieldName(fs.Field(i).Name())))
+	}
+	return "({ " + strings.Join(parts, ", ") + " } : " + tname + ")"
 }
 
 func isBuilder(t types.Type) bool {
@@ -2357,9 +2453,7 @@ func (t *ftr) translate(fi *FuncInfo, from *fctx, at ast.Node) string {
 	defer func() { curOpaque = savedOpaque }()
 	c := &fctx{t: t, fi: fi, spec: spec, base: name, names: map[types.Object]string{}, used: map[string]bool{}, localViews: map[*types.Var]*view{}}
 	sig := fi.Obj.Type().(*types.Signature)
-	if sig.Variadic() {
-		c.fail(fi.Decl, "variadic function")
-	}
+	// (a variadic parameter is the slice it is inside the function)
 	var params []string
 	var shadow []string
 	asg := c.assignedIn(fi.Decl.Body)
